@@ -146,7 +146,7 @@ PROPS['C19']['eb'] = [dict(EB_CLIENT, name='client-backoff', filters=['client::c
 PROPS['C02']['eb'] = [_findings_group(['f_subid_wire_width'])]
 PROPS['C16']['eb'] = [_findings_group(['f_subid_avail_not_enforced'])]
 
-EB_AWS = {'name': 'aws', 'crate': 'gneiss-mqtt-aws', 'module_dir': 'gneiss_mqtt_aws', 'features': ['threaded-rustls'], 'tests': ['custom_auth_query_string_round_trips'], 'timeout': 3000}
+EB_AWS = {'name': 'aws', 'crate': 'gneiss-mqtt-aws', 'module_dir': 'gneiss_mqtt_aws', 'features': ['threaded-rustls'], 'tests': ['custom_auth_query_string_round_trips', 'aws_builder_final_client_id_is_never_empty'], 'timeout': 3000}
 PROPS['C20'] = _ev(['aws'], 'Unbounded proofs, on the real builder code of both crates, that apply_aws_defaults changes exactly the drain policy and retry limit and only for an MQTT 3.1.1 client whose user set neither, '
                    'and that build_final_connect_options keeps a user client id, otherwise installs a fresh 36-character one, replaces only username/password under custom auth and preserves every other connect option. '
                    'The custom-auth query string (format!/write!) is a bounded check against an RFC 3986 reference parser.', design_ref='DESIGN.md 3/C20',
@@ -182,7 +182,7 @@ PROPS['C11']['eb'].append(EB_FIXED)
 EB_SVCTIME = {'name': 'service-time', 'crate': 'gneiss-mqtt', 'module_dir': 'gneiss_mqtt', 'filters': ['engine::service_time'], 'tests': ['service_time_contract_never_strands_work', 'service_time_covers_every_armed_deadline'], 'timeout': 3000}
 PROPS['C08']['eb'] = [EB_SVCTIME] + PROPS['C08'].get('eb', [])
 
-EB_LIMITS = {'name': 'limits', 'crate': 'gneiss-mqtt', 'module_dir': 'gneiss_mqtt', 'filters': ['limits::'], 'tests': ['server_limits_hold_on_the_wire_with_aliases'], 'timeout': 3000}
+EB_LIMITS = {'name': 'limits', 'crate': 'gneiss-mqtt', 'module_dir': 'gneiss_mqtt', 'filters': ['limits::'], 'tests': ['server_limits_hold_on_the_wire_with_aliases', 'outbound_aliases_never_survive_a_reconnect'], 'timeout': 3000}
 PROPS['C16']['eb'].append(EB_LIMITS)
 PROPS['C17']['eb'].append(EB_LIMITS)
 
@@ -216,3 +216,7 @@ PROPS['C11']['eb'].append(EB_EXTREME)
 EB_INTERNAL = {'name': 'internal-ops', 'crate': 'gneiss-mqtt', 'module_dir': 'gneiss_mqtt', 'filters': ['engine::internal_operations'], 'tests': ['internal_operations_never_survive_a_disconnection'], 'timeout': 3000}
 for _p in ('C15', 'C07', 'C01'):
     PROPS[_p]['eb'].append(EB_INTERNAL)
+
+# C16 "at send time for connection-dependent limits": the limits are the negotiated settings built from CONNACK (seed C16_6 was missed without this)
+PROPS['C16']['ev'] = list(PROPS['C16']['ev']) + ['protocol']
+PROPS['C16']['ek'] = PROPS['C16'].get('ek', []) + [EK_NEG]
